@@ -50,7 +50,8 @@ type ROp struct {
 	K   int    `json:"k"`
 	Off uint32 `json:"off,omitempty"` // window offset; sequence = base + off (mod 2^32)
 	Typ uint16 `json:"typ,omitempty"`
-	D   int64  `json:"d,omitempty"` // sleep, ns
+	D   int64  `json:"d,omitempty"`   // sleep, ns
+	Dup bool   `json:"dup,omitempty"` // PushMessage of a distinct message object that equals the previous PushMessage's message in every field (type, sequence, raw text)
 	Pre bool   `json:"pre,omitempty"` // PushMessage of a message object that auparse.Parse produced before the first call (an application that parses, queues, then pushes)
 }
 
@@ -139,7 +140,7 @@ const (
 var rFaultNames = []string{"drop_record", "drop_terminator", "drop_event_gap", "duplicate_record", "reorder", "delay_past_eviction",
 	"sequence_restart", "nil_message", "unparsable_push", "interleaved_events", "uint32_rollover_window", "boundary_sleep", "event_with_63_to_300_records"}
 
-const nBadRaw = 11 // variants of unparsable raw records (reasm_seq.go)
+const nBadRaw = 14 // variants of unparsable raw records (reasm_seq.go)
 
 var timeoutClasses = []int64{-1e9, 0, 1e6, 50e6, 2e9, 3600e9, math.MaxInt64}
 
@@ -234,6 +235,19 @@ func GenRPlan(r *core.Rng, tilt int) *RPlan {
 			p.Ops = append(p.Ops[:at:at], append(burst, p.Ops[at:]...)...)
 			fired[fLongEvent]++
 		}
+	}
+	if r.Chance(1, 8) {
+		// records that repeat: a second message object equal to the one pushed before it
+		var out []ROp
+		for _, o := range p.Ops {
+			out = append(out, o)
+			if o.K == opPushMsg && len(out) < 900 && r.Chance(1, 4) {
+				d := o
+				d.Dup = true
+				out = append(out, d)
+			}
+		}
+		p.Ops = out
 	}
 	if r.Chance(1, 6) {
 		// message objects that were parsed ahead of time and pushed later
